@@ -28,7 +28,9 @@
     read_txt_registers / read_reg_k (pkg/registers), value_from_bytes,
     parse_registers (Registers.UnmarshalJSON after encoding/json),
     EventLog.parse_locality / parse_event_data, parse_sysfs_pcrs, local_caps
-    (tpmdetection.local), bytes_range, decrypt_frame (DecryptPrivKey framing).
+    (tpmdetection.local), bytes_range, decrypt_frame (DecryptPrivKey framing),
+    pem_loop (the PEM block loop of parsePrivateKey / ReadPubKey over an
+    abstract pem.Decode).
 
     Naming: [_partial] = needs the visible extra hypothesis, [_refuted] = closed
     witness on the faithful model (a finding of KNOWN_FINDINGS.json). *)
@@ -259,6 +261,20 @@ Theorem C15_DecryptPrivKey_short_panics : forall d, lenZ d < 12 -> run (decrypt_
 Proof. exact P_decrypt_short. Qed.
 Print Assumptions C15_DecryptPrivKey_short_panics.
 
+(** The loop of parsePrivateKey / ReadPubKey over the PEM blocks of a file.
+    PARTIAL: encoding/pem.Decode is third-party; the hypothesis is its contract
+    (the rest it returns is strictly shorter than what it was given). *)
+Theorem C15_pem_loop_terminates_partial : forall decode,
+  (forall raw c rest, decode raw = Some (c, rest) -> (length rest < length raw)%nat) ->
+  forall raw, pem_loop decode (S (length raw)) raw <> OutOfFuel /\ pem_loop decode (S (length raw)) raw <> Panic.
+Proof. exact P_pem_loop. Qed.
+Print Assumptions C15_pem_loop_terminates_partial.
+
+(** ... and the loop does rest on it: a decoder that hands back its input makes it spin *)
+Theorem C15_pem_loop_needs_progress : exists decode raw, forall fuel, pem_loop decode fuel raw = OutOfFuel.
+Proof. exact P_pem_loop_needs_progress. Qed.
+Print Assumptions C15_pem_loop_needs_progress.
+
 (** * Examples: the hypotheses above are satisfiable by non-trivial values *)
 
 (** a 32-byte ACM header whose Size field is 0x102 dwords *)
@@ -282,3 +298,8 @@ Proof. exact ex_readtxt. Qed.
 Example C15_ex_decrypt : (true = true -> 12 <= lenZ (repeat 1 12)) /\
   run (decrypt_frame true (repeat 1 12)) (repeat 1 12) <> RPanic.
 Proof. exact ex_decrypt. Qed.
+(** a block decoder that meets the contract: two certificates, then a key block / no key block *)
+Example C15_ex_pem_decode : exists decode : list Z -> option (bool * list Z),
+  (forall raw c rest, decode raw = Some (c, rest) -> (length rest < length raw)%nat) /\
+  pem_loop decode 4 [1; 1; 0] = Ok true /\ pem_loop decode 3 [1; 1] = Err E_OTHER.
+Proof. exact ex_pem_decode. Qed.
